@@ -806,6 +806,7 @@ struct C04 : public Driver {
             if (o.skipped) { res.count("pipeline-skipped"); tr.ev("cfg " + c.key() + " skipped"); continue; }
             res.count("configs"); res.count("family:" + ev.family(c));
             tr.ev("cfg " + c.key() + " " + (o.threw ? "exc " + o.excType : "out " + hex64(fnvStr(o.bytes)) + " " + std::to_string(o.bytes.size())));
+            if (getenv("C04_DUMP")) { std::string esc; for (unsigned char ch : o.bytes) { if (ch >= 0x20 && ch < 0x7F && ch != '\\') esc += (char)ch; else { char b[8]; snprintf(b, sizeof b, "\\x%02X", ch); esc += b; } } fprintf(stderr, "DUMP [%s] %s%s\n", c.key().c_str(), o.threw ? ("threw " + excName(o) + " after: ").c_str() : "", esc.c_str()); }
             res.count(o.threw ? "outcome:error" : "outcome:output");
             if (o.threw && !ev.repr.ok) res.count("outcome:error-on-unrepresentable");
             if (!c.flushes.empty() && !o.threw) res.count("probe:explicit-flush");
